@@ -487,6 +487,11 @@ def targeted(rng) -> List[tuple]:
     for cc in ("max-age=\u0661\u0662", "max-age\u00a0=\u20035", "max-age=\uff11" + "\u0669" * 30, "max-age=" + "\u0660" * 4301, "max-age=\u00b9", "MAX-AGE=\u0e51"):
         out.append(("x:unicode-max-age", notify("ssdp:alive", udn, typ, loc, cc), None))
         out.append(("x:unicode-max-age", response(udn, typ, loc, cc), None))
+    # F01a: a metadata name in two spellings next to a valid USN (the decoder's own value must win)
+    for a, b in (("_udn", "_UDN"), ("_UDN", "_udn"), ("_host", "_HOST"), ("_Udn", "_uDN")):
+        hs2 = [[a, "uuid:spoof-1"], [b, "uuid:spoof-2"], ["NT", typ], ["ST", typ], ["NTS", "ssdp:alive"], ["USN", "uuid:dev-1::" + typ], ["LOCATION", loc]]
+        out.append(("spoof-two-spellings", pkt("NOTIFY * HTTP/1.1", hs2), None))
+        out.append(("spoof-two-spellings", pkt("HTTP/1.1 200 OK", [h for h in hs2 if h[0] not in ("NT", "NTS")]), None))
     # metadata spoofing: `_udn` without a USN reaches `_see_device`
     for kind in ("alive", "search", "byebye"):
         hs = [["_udn", "uuid:spoof"], ["LOCATION", loc], ["NT", typ], ["ST", typ], ["NTS", "ssdp:" + ("byebye" if kind == "byebye" else "alive")]]
@@ -683,7 +688,7 @@ def generate(ctx: Ctx) -> List[Case]:
     import multiprocessing as mp
 
     jobs = []
-    for kind, n, chunks in (("targeted", 1, 8), ("sandwich", 1200, 8), ("hostile", 1500, 8), ("valid", 1800, 16), ("mutated", 1600, 24)):
+    for kind, n, chunks in (("targeted", 1, 8), ("sandwich", 900, 8), ("hostile", 1100, 8), ("valid", 1300, 16), ("mutated", 1200, 24)):
         for c in range(chunks):
             jobs.append(("thorough", ctx.rng.randrange(1 << 30), kind, n, f"{kind[0]}{c}-"))
     with mp.Pool(min(16, mp.cpu_count())) as pool:
